@@ -31,6 +31,8 @@ use std::os::raw::c_long;
 
 #[path = "../c03_bytecode.rs"]
 mod bytecode;
+#[path = "../c03_synth.rs"]
+mod synth;
 
 extern "C" {
     fn FT_MulFix(a: c_long, b: c_long) -> c_long;
@@ -40,6 +42,7 @@ extern "C" {
     fn FT_RoundFix(a: c_long) -> c_long;
     fn FT_CeilFix(a: c_long) -> c_long;
     fn FT_FloorFix(a: c_long) -> c_long;
+    fn FT_Hypot(x: c_long, y: c_long) -> c_long;
 }
 
 fn main() {
@@ -270,6 +273,45 @@ fn kernels(cfg: &Config, s: &mut Session) {
     }
 }
 
+/// `ft_hypot` (glyf/mod.rs, the vector length that scales SCALED_COMPONENT_OFFSET offsets) against
+/// the linked `FT_Hypot` = `FT_Vector_Length`.  Oracle only: the CORDIC iteration is not modelled.
+fn hypot_oracle(cfg: &Config, s: &mut Session) {
+    let mut rng = Rng::new(cfg.seed ^ 0x4179);
+    let mut one = |s: &mut Session, x: i32, y: i32| {
+        let ft = unsafe { FT_Hypot(x as c_long, y as c_long) } as i64;
+        let sk = catch(|| skrifa::outline::verif_hooks::ft_hypot(x, y));
+        if fits_i32(ft) {
+            s.count("hypot:fits");
+            s.oracle("kernel:ft_hypot==FT_Hypot", sk == Ok(ft as i32), || format!("hypot {x} {y}"), || format!("skrifa {sk:?} freetype {ft}"));
+        } else {
+            s.count("hypot:ft-exceeds-i32");
+            s.oracle("kernel:ft_hypot-no-panic", sk.is_ok(), || format!("hypot {x} {y}"), || format!("skrifa {sk:?} freetype {ft}"));
+        }
+    };
+    // the domain of the call site: 2.14 transform entries as 16.16, i.e. multiples of 4 within ±2^17
+    let f2: Vec<i32> = vec![-32768, -32767, -16385, -16384, -16383, -11585, -8192, -123, -2, -1, 0, 1, 2, 123, 8192, 11585, 16383, 16384, 16385, 23170, 32766, 32767];
+    for &a in &f2 {
+        for &b in &f2 {
+            one(s, a * 4, b * 4);
+        }
+    }
+    let n = if cfg.thorough() { 2_000_000 } else { 100_000 };
+    for _ in 0..n {
+        let (a, b) = (rng.range(-32768, 32767) as i32 * 4, rng.range(-32768, 32767) as i32 * 4);
+        one(s, a, b);
+    }
+    let grid = boundary_i32();
+    for &a in &grid {
+        for &b in &grid {
+            one(s, a, b);
+        }
+    }
+    for _ in 0..n / 4 {
+        let (a, b) = (mixed_i32(&mut rng), mixed_i32(&mut rng));
+        one(s, a, b);
+    }
+}
+
 // ------------------------------------------------------------------------------------------------
 // C. whole-outline differential (the property statement)
 // ------------------------------------------------------------------------------------------------
@@ -293,6 +335,16 @@ fn path_diff(a: &[PathElement], b: &[PathElement]) -> String {
     let lo = i.saturating_sub(1);
     let w = |v: &[PathElement]| elements(&v[lo.min(v.len())..(i + 2).min(v.len())]);
     format!("len {}/{} first difference at element {i}: freetype [{}] skrifa [{}]", a.len(), b.len(), w(a), w(b))
+}
+
+fn first_few(key: &str) -> bool {
+    use std::collections::HashMap;
+    use std::sync::Mutex;
+    static SEEN: Mutex<Option<HashMap<String, u32>>> = Mutex::new(None);
+    let mut g = SEEN.lock().unwrap();
+    let n = g.get_or_insert_with(HashMap::new).entry(key.to_string()).or_insert(0);
+    *n += 1;
+    *n <= 4
 }
 
 fn mode_name(h: Option<Hinting>) -> String {
@@ -351,12 +403,27 @@ pub fn differential(cfg: &Config, s: &mut Session, path: &std::path::Path, ppems
                         (Some(fa), Ok(Ok(sa))) => {
                             s.count("diff:compared");
                             s.count(&format!("diff:mode:{}", mode_name(mode)));
-                            s.oracle("outline:path==freetype", ft_outline == sk_outline, input,
-                                || path_diff(&ft_outline, &sk_outline));
+                            let same = ft_outline == sk_outline;
+                            if !same {
+                                s.count(&format!("mismatch:path:{name}:ppem{ppem}:{}", mode_name(mode)));
+                            }
+                            // one glyph failing at every size and mode must not exhaust the harness' cap of
+                            // recorded failures and hide a different glyph: record 4 per (font, glyph), count the rest
+                            if same || first_few(&format!("path:{name}:{index}:{}", gid.to_u32())) {
+                                s.oracle("outline:path==freetype", same, input, || path_diff(&ft_outline, &sk_outline));
+                            } else {
+                                s.count("mismatch:path:further-sizes-of-an-already-recorded-glyph");
+                            }
                             if let Some(sa) = sa {
                                 s.count("diff:advance-compared");
-                                s.oracle("outline:advance==freetype", fa == sa, input,
-                                    || format!("freetype {fa} skrifa {sa}"));
+                                if fa != sa {
+                                    s.count(&format!("mismatch:advance:{name}:ppem{ppem}:{}", mode_name(mode)));
+                                }
+                                if fa == sa || first_few(&format!("adv:{name}:{index}:{}", gid.to_u32())) {
+                                    s.oracle("outline:advance==freetype", fa == sa, input, || format!("freetype {fa} skrifa {sa}"));
+                                } else {
+                                    s.count("mismatch:advance:further-sizes-of-an-already-recorded-glyph");
+                                }
                             }
                         }
                         (None, Ok(Err(_))) => s.count("diff:both-fail"),
@@ -429,6 +496,8 @@ fn outlines(cfg: &Config, s: &mut Session) {
 
 fn run(cfg: &Config, s: &mut Session) {
     kernels(cfg, s);
+    hypot_oracle(cfg, s);
     bytecode::run(cfg, s);
+    synth::run(cfg, s);
     outlines(cfg, s);
 }
